@@ -86,12 +86,12 @@ def run(prop, tier, jkey, what, known_key, known_text, design, probes=()):
         "checker_cmd": "make -C coq Properties/%s.vo Extract/C01x.vo (coqc 8.16.1) + Print Assumptions gate" % prop,
         "trusted_base": vlib.TRUSTED_BASE, "theorems": pr["theorems"], "axioms": pr["axioms"],
         "evaluations": len(results), "distinct_nontrivial": len(set(r["line"].split(":")[1] for r in good if len(r["impl"].split()) > 6)),
-        "rule": "type-directed ST programs (3-10 variables of BOOL and the 8 integer kinds; expressions with boundary literals, every operator x kind; IF/ELSIF, CASE on any integer kind, FOR incl. runs into the type maximum / step 0 / empty range, counter-bounded WHILE and REPEAT, EXIT, CONTINUE, RETURN), half of them with typed literals only (strict), some outside T on purpose; compiled by the real parser + HIR gate + lowering, run 1-4 cycles with boundary inputs under catch_unwind; all variables dumped with their runtime type tags; non-trivial = at least one completed cycle with more than 3 variables; distinct by program",
+        "rule": "type-directed ST programs (3-10 variables of BOOL and the 8 integer kinds; expressions with boundary literals, every operator x kind; IF/ELSIF, CASE on any integer kind, FOR incl. runs into the type maximum / step 0 / empty range, counter-bounded WHILE and REPEAT, EXIT, CONTINUE, RETURN; a fifth of the programs declare one or two integer arrays ARRAY[lo..hi] with bounds around zero and read / write elements through literal, variable and variable+constant indices of any integer kind but ULINT, in and out of bounds), half of them with typed literals only (strict), some outside T on purpose; compiled by the real parser + HIR gate + lowering, run 1-4 cycles with boundary inputs under catch_unwind; all variables dumped with their runtime type tags; non-trivial = at least one completed cycle with more than 3 variables; distinct by program",
         "samples": [r["line"][:300] for r in good[:2]],
         "program_classes": stat, "model_impl_disagreements": len(diffs), "judge_failures": len(fails),
         "judge_failures_in_strict_programs": len(strict_fails), "known_finding_instances": len(known_hits),
     }
-    assumptions = ["proved core: BOOL and integer kinds, assignment, IF, CASE, FOR, WHILE, REPEAT, EXIT, CONTINUE, RETURN on program variables; REAL, strings, date/time, arrays, structs, FUNCTION / method calls, positional FB calls and nested instances are outside the model; named-argument FB calls are modelled by inlining on a flat store (Model/StCalls.v, f-cases) (tie-only or not covered)",
+    assumptions = ["proved core: BOOL and integer kinds, assignment, IF, CASE, FOR, WHILE, REPEAT, EXIT, CONTINUE, RETURN on program variables, one-dimensional integer arrays with element reads and writes through index expressions (a-cases; IndexOutOfBounds is a value-dependent fault; the elements of an array are slots of the flat store); REAL, strings, date/time, multi-dimensional arrays, arrays of other element types, structs, FUNCTION / method calls, positional FB calls and nested instances are outside the model; named-argument FB calls are modelled by inlining on a flat store (Model/StCalls.v, f-cases) (tie-only or not covered)",
                    "T (Model/StTyping.v) is a strict subset of what the HIR checker accepts; the tie checks T p => the real compiler accepts p",
                    "OutOfFuel of the model stands for non-termination; generated loops are bounded"]
     # fixed probe programs of further recorded findings: (key, function -> (hit, what, source))
